@@ -58,6 +58,8 @@ def request(items, method='PUBLISH'):
     for it in items:
         if it['kind'] == 'add':
             L += task_ics(it['uid'], it['occ'], it.get('maxsim', 0), it.get('owner_uid', it.get('owner_name')), it.get('dur'), extra=it.get('extra', ()), allday=it.get('allday', False), past_rule=it.get('past_rule', False))
+        elif it['uid'] == '':
+            L += ['BEGIN:VEVENT', 'DTSTART:' + secs(0), 'END:VEVENT']          # a cancel that names no UID at all
         else:
             L += ['BEGIN:VEVENT', 'UID:' + it['uid'], 'DTSTART:' + secs(0), 'END:VEVENT']
     L += ['END:VCALENDAR', '']
@@ -312,7 +314,7 @@ def map_script(rnd, uidpool, peers=(1000, 1001, 1002, 0, 4242), nreq=8, listy=Fa
             metas[len(cmds)] = items
             cmds.append(areq(rnd, p, request(items)))
         elif x < 0.75:
-            items = [{'kind': 'cancel', 'uid': rnd.choice(uidpool), 'peer': p} for _ in range(rnd.choice([1, 1, 2]))]
+            items = [{'kind': 'cancel', 'uid': rnd.choice(uidpool) if rnd.random() < 0.93 else '', 'peer': p} for _ in range(rnd.choice([1, 1, 2]))]
             metas[len(cmds)] = items
             cmds.append(areq(rnd, p, request(items, 'CANCEL')))
         elif p == 0:
